@@ -706,6 +706,19 @@ func (f *Factory) replayEdge(idx int, e *Edge, names []string) (EdgeResult, erro
 		r.How = "built"
 		trace = nil
 
+		// temporary objects cannot be rebuilt: their names are handed out by the implementation, and the
+		// specification numbers them by creation (a directly built "~1" would be counted neither way)
+		for _, en := range e.Pre {
+			for _, c := range en.P {
+				if strings.HasPrefix(c, "~") {
+					r.Status = "unreach"
+					r.Why = "the source state holds temporary objects and is only reachable through a deviation"
+
+					return r, nil
+				}
+			}
+		}
+
 		bc := BuildCalls(e.Pre, s.NoIdm)
 		if e.Call.Op != "chdir" && len(e.Cwd.Parts) > 0 && len(e.Cwd.Parts[0]) > 0 && !strings.HasPrefix(e.Cwd.Parts[0], "GETWD") {
 			// the working directory belongs to the source state (unchanged by any call but chdir)
